@@ -25,6 +25,18 @@ out.append("Fresh sub-agents were given only a property record and a scratch wor
            "`seeded/<ID>_<mN>/`; `tools/seed.py detect` applies it to /repo, runs the registered quick check(s) and undoes it "
            "(`seeded/*/detect.json`).\n")
 out.append(subprocess.run(["python3", os.path.join(ROOT, "tools", "seed_table.py")], stdout=subprocess.PIPE, text=True).stdout)
+out.append("\n### 9.4b Axioms each property's theorems depend on (union of `Print Assumptions` over its Props file, from the last evidence)\n")
+out.append("| property | theorems | axioms |\n|---|---|---|")
+for f in sorted(glob.glob(os.path.join(ROOT, "evidence", "C*.json"))):
+    ev = json.load(open(f))
+    ax, n = set(), 0
+    for line in ev["coverage"].get("trusted_base", []):
+        m = re.match(r"Print Assumptions (\S+): (.*)", line)
+        if m:
+            n += 1
+            if not m.group(2).startswith("closed under"):
+                ax |= {a.strip() for a in m.group(2).split(",")}
+    out.append("| %s | %d | %s |" % (ev["property_id"], n, ", ".join(sorted(a.split(".")[-1] for a in ax)) or "none (closed under the global context)"))
 text = "\n".join(out)
 d = open(os.path.join(ROOT, "DESIGN.md")).read()
 b, e = "<!-- AUTO:BEGIN -->", "<!-- AUTO:END -->"
